@@ -28,7 +28,7 @@ TIERS = {
 # documented parameters (aldy/profile.py docstrings): name -> (type, sample values)
 PARAMS = {
     "gap": ("float", [0.1, 0.25]),
-    "threshold": ("float", [0.4, 0.45]),
+    "threshold": ("float", [0.4, 0.45, 0.4321987]),
     "min_coverage": ("float", [3, 2.5]),
     "min_quality": ("int", [12, 9]),
     "min_mapq": ("int", [20, 5]),
@@ -38,13 +38,13 @@ PARAMS = {
     "cn_max": ("int", [10, 15]),
     "cn_pce_penalty": ("float", [1.5, 2.5]),
     "cn_diff": ("float", [9.0, 11]),
-    "cn_fit": ("float", [1.5, 0.75]),
+    "cn_fit": ("float", [1.5, 0.75, 1.0000001]),
     "cn_parsimony": ("float", [0.6, 0.4]),
     "cn_fusion_left": ("float", [0.4, 0.6]),
     "cn_fusion_right": ("float", [0.3, 0.2]),
     "major_novel": ("float", [20.0, 22]),
     "minor_miss": ("float", [1.4, 1.6]),
-    "minor_add": ("float", [1.1, 0.9]),
+    "minor_add": ("float", [1.1, 0.9, 1.23456789]),
     "minor_phase": ("float", [0.3, 0.5]),
     "minor_phase_vars": ("int", [2000, 2500]),
     "male": ("bool", [True, False]),
@@ -57,7 +57,7 @@ PARAMS = {
     "indelpost": ("bool", [True, False]),
     # the profile's joint depth of the neutral region: documented attribute like the others; a profile file has
     # its own value (neutral: value:), an explicit setting must win over it like over any other default
-    "neutral_value": ("float", [150000.0, 98765.5]),
+    "neutral_value": ("float", [150000.0, 98765.5, 2415408.5]),
 }
 ROUTES = ["profile_api", "genotype_api", "cli", "options", "options_explicit", "roundtrip", "dump",
           "profile_api", "genotype_api", "cli", "options", "options_explicit", "roundtrip", "dump", "profile_cli",
@@ -143,6 +143,12 @@ def gen_plan(rng, tier, i, seed):
     r = rng.random()
     if r < 0.15:
         extra = ["unknown", rng.choice(["foo", "gapp", "min-qualityy", "Phase"]), rng.choice(["1", "x", "true"])]
+        if route in ("cli", "dump", "options", "options_explicit", "profile_api", "roundtrip") and rng.random() < 0.4:
+            # names that are no model parameters but mean something else to the program (arguments of the run,
+            # fields of the profile object): unknown names all the same
+            pool = ["name", "data"] if route in ("options", "options_explicit", "profile_api", "roundtrip") else \
+                ["debug", "report", "solver", "genome", "name", "data", "is_simple"]
+            extra = ["unknown", rng.choice(pool), rng.choice(["1", "x", "true"])]
     elif r < 0.35:
         n, v = rng.choice(MALFORMED)
         extra = ["malformed", n, v]
